@@ -129,7 +129,7 @@ class Node(metaclass=abc.ABCMeta):
         Returns:
             Node hashcode.
         """
-        return hash(self.szin) ^ hash(self.szout)
+        return hash(self.szout)
 
     def accept(self, visitor: Visitor) -> None:
         """Visitor entrypoint.
